@@ -9,14 +9,17 @@ from vlib import trajcorr
 ID = 'C02'
 GENS = ['units', 'consts']
 TARGETS = ['BC.Props.C02']
-PROP_FILES = ['BC/Props/C02.lean', 'BC/Lemmas/Loop.lean']
-THEOREMS = ['C02_returned_meets_accuracy', 'C02_error_otherwise', 'C02_converges_partial', 'C02_failed_zero_leaves_weapon', 'C02_zero_angle_def']
+PROP_FILES = ['BC/Props/C02.lean', 'BC/Lemmas/Loop.lean', 'BC/Lemmas/C02.lean']
+THEOREMS = ['C02_returned_meets_accuracy', 'C02_error_otherwise', 'C02_converges_partial', 'C02_failed_zero_leaves_weapon', 'C02_zero_angle_def',
+            'C02_hits_sight_line']
 STATEMENTS = {
     'C02_returned_meets_accuracy': 'whenever the zero finder returns an elevation e, the sampled point of the run AT e is within the zero-finding accuracy of the sight line',
     'C02_error_otherwise': 'otherwise it raises: an error propagated unchanged from a trajectory computation, or ZeroFindingError with error > accuracy and iterations <= cap; never an angle that misses',
     'C02_converges_partial': 'PARTIAL: if every run succeeds and the miss contracts by q per iteration with q^(cap-1)*first miss <= accuracy, the zero finder returns (it does not fail). '
                              'That the real height function contracts is a hypothesis (search only)',
     'C02_failed_zero_leaves_weapon': 'set_weapon_zero stores total - look on success and keeps the OLD value when zeroing raised',
+    'C02_hits_sight_line': 'zeroAngle = ok e -> the run with e to the aim distance (step = that distance, flags RANGE) has a second row, the trajectory interpolated AT the aim '
+                           'distance, with |target_drop| <= accuracy * |cos(look)| (x12 raw inches): level, uphill, downhill, any wind, any environment',
     'C02_zero_angle_def': 'zero_angle aims at the point on the sight line at the look-distance: horizontal cos(look) d, and evaluates runs to that distance with no flags',
 }
 TRUSTED = [
